@@ -290,13 +290,19 @@ class CallStack(deque):
             else:
                 break
 
+        # Discard nodes unwound by errors handled in this node
+        rolledback = self.executor.rolledback
+        while rolledback and rolledback[-1][0] > self.counter:
+            rolledback.pop()
+
         return node
 
     def rollback(self):
         node = deque.pop(self)
         self.idxstack.pop()
-        self.executor.rolledback.append(node)
         self.counter -= 1
+        self.executor.rolledback.append(
+            (self.counter, sys.exc_info()[1], node))
         cells = node[OBJ]
 
         graph = cells.model.tracegraph
@@ -385,12 +391,18 @@ class ErrorStack(deque):
         tb = execinfo[2]
         self.on_eval_flag = False
 
+        # Leave out nodes unwound by other errors handled in formulas
+        nodes = [n for _, exc, n in rolledback if exc is execinfo[1]]
+        rolledback.clear()
+        rolledback = nodes
+
         mxdir = os.path.dirname(modelx.__file__)
 
         for frame in tbexc.stack:
             if mxdir in frame.filename and frame.name == "on_eval_formula":
                 self.on_eval_flag = True
-            elif not mxdir in frame.filename and self.on_eval_flag:
+            elif (not mxdir in frame.filename and self.on_eval_flag
+                    and rolledback):
                 node = rolledback.pop()
                 self.append(
                     (node, frame.lineno, tb.tb_frame.f_locals.copy())
